@@ -62,11 +62,11 @@ def run(ctx):
     ctx.assumptions = ["process kill only (no power loss; the library never fsyncs)",
                        "memory-mapped stores are not system calls; their partial states live only in the private temp file"]
     ctx.exhaustive = True
-    work = ctx.new_dir("work")
     scs = scenarios(ctx, rng)
     states = set()
     total_points = 0
     for si, sc in enumerate(scs):
+        work = ctx.new_dir(f"work{si}")
         tdir = os.path.join(work, f"t{si}")
         os.makedirs(tdir)
         crash.build_template(ctx, sc, tdir)
@@ -163,7 +163,7 @@ def run(ctx):
                     ctx.violation(f"{sc.name}|{sc.mode}|exists", f"exists()={ex['ok']['exists']} but file present={present}", det)
             ctx.rm(rdir)
         ctx.count(f"visible_calls[{sc.name}@{sc.mode}]", T)
-        ctx.rm(tdir)
+        ctx.rm(work)
     ctx.extra["distinct_on_disk_states_after_kill"] = len(states)
     ctx.extra["scenarios"] = [f"{s.name}@{s.mode}" for s in scs]
     ctx.extra["kill_and_torn_points"] = total_points
